@@ -21,6 +21,7 @@ mod http_sys;
 mod ws_sys;
 mod watchdog;
 mod udp_conc;
+mod udp_stats;
 
 use std::collections::HashMap;
 
@@ -153,6 +154,7 @@ fn main() {
         "ws-sys" => ws_sys::run(&args),
         "watchdog" => watchdog::run(&args),
         "udp-conc" => udp_conc::run(&args),
+        "udp-stats" => udp_stats::run(&args),
         "watchdog-case" => watchdog::case_child(&args),
         "ws-sys-case" => ws_sys::case_child(&args),
         "http-tracker" => http_sys::tracker_child(&args),
